@@ -76,6 +76,56 @@ def thorough_extras(prop, mod, R):
     R.count('selftest_skipped', len(skipped))
     R.note('self-test: %d seeded changes / benign variants for %s, %d as expected, %d skipped (anchor vanished), %d wrong'
            % (len(results), prop, len(results) - len(bad) - len(skipped), len(skipped), len(bad)))
+    # (c) the independently written corpora (DESIGN 12.1 / 12.2), applied in memory: every seeded change recorded as caught by
+    # this check must still be reported by it, every behaviour-preserving refactoring must leave it silent
+    work = []
+    here = os.path.dirname(os.path.dirname(os.path.abspath(__file__)))
+    import json
+    for d in sorted(os.listdir(os.path.join(here, 'seeded'))):
+        mp = os.path.join(here, 'seeded', d, 'meta.json')
+        pp = os.path.join(here, 'seeded', d, 'patch.diff')
+        if os.path.exists(mp) and os.path.exists(pp):
+            meta = json.load(open(mp))
+            if (meta.get('caught_by') or {}).get(prop, {}).get('exit') == 1:
+                work.append(('seeded/' + d, pp, prop, True))
+    for d in sorted(os.listdir(os.path.join(here, 'benign'))):
+        pp = os.path.join(here, 'benign', d, 'patch.diff')
+        if os.path.exists(pp):
+            work.append(('benign/' + d, pp, prop, False))
+    with ProcessPoolExecutor(max_workers=int(os.environ.get('VERIF_JOBS', '16'))) as ex:
+        res2 = list(ex.map(_corpus_one, work))
+    wrong = [r for r in res2 if r[1] == 'wrong']
+    for name, status, detail in res2:
+        R.canary(name, status != 'wrong', detail[:160])
+    R.count('independent_corpus_entries', len(res2))
+    R.note('independent corpora: %d entries for %s (%d seeded changes expected to be reported, %d refactorings expected silent), '
+           '%d as expected, %d skipped (patch no longer applies), %d wrong'
+           % (len(res2), prop, sum(1 for w in work if w[3]), sum(1 for w in work if not w[3]),
+              sum(1 for r in res2 if r[1] == 'ok'), sum(1 for r in res2 if r[1] == 'skipped'), len(wrong)))
+
+
+def _corpus_one(args):
+    name, patch, prop, expect_violation = args
+    from selftest.patchapply import apply_patch
+    from .model import REPO
+    try:
+        ov = apply_patch(open(patch, encoding='utf-8').read(), lambda rel: open(os.path.join(REPO, rel), encoding='utf-8').read())
+    except Exception as e:      # pragma: no cover
+        return name, 'skipped', 'patch cannot be read: %s' % e
+    if ov is None:
+        return name, 'skipped', 'patch does not apply to the current sources'
+    ov = {k: v for k, v in ov.items() if k.endswith('.py')}
+    devnull = open(os.devnull, 'w')
+    old = sys.stdout
+    sys.stdout = devnull
+    try:
+        code, R = run_check(prop, 'quick', overrides=ov, quiet=True, write=False)
+    finally:
+        sys.stdout = old
+    if expect_violation:
+        return name, ('ok' if code == 1 else 'wrong'), 'exit %d, expected a VIOLATION' % code
+    return name, ('ok' if code == 0 else 'wrong'), 'exit %d, expected silence: %s' % (
+        code, '; '.join('%s %s %s' % (o.rule, o.construct, o.token) for o in R.violations)[:120])
 
 
 def main(argv):
